@@ -293,7 +293,10 @@ class _Inliner:
             if target_cls is not None:
                 m = self._method(target_cls, f.attr)
                 owner = self._owner_of(m) if m is not None else None
-                if m is not None and _is_transparent_name(f.attr, self.module, owner):
+                # a method that several classes of the module define is dispatched on the receiver's class: `self.m()` in a
+                # base class may run a subclass's override, so the body seen here is not what the call does
+                virtual = sum(1 for c in self.classes.values() for b in c.body if isinstance(b, ast.FunctionDef) and b.name == f.attr) > 1
+                if m is not None and not virtual and _is_transparent_name(f.attr, self.module, owner):
                     return m, f.value
                 if m is not None:
                     return None
